@@ -35,6 +35,7 @@ func propFailoverSched(c *Case, o scenOpts, oracle func(w *world, sc *scenario, 
 		})
 
 		w.reportProblems()
+		w.checkSide()
 		w.classify(sc)
 
 		if oracle != nil {
